@@ -447,7 +447,7 @@ fn execute_history(run: &Run, opts: &ExecOpts) -> Outcome {
                     let mut fresh: Vec<FreshResult> = vec![];
                     for s in &seeds {
                         cx.out.stats.fresh_builds += 2;
-                        let v = Variant { hash_seed: *s, preregister: vec![], repeat: false, diag_first: *diag_first, root: None, earlier: vec![] };
+                        let v = Variant { hash_seed: *s, preregister: vec![], repeat: false, diag_first: *diag_first, root: None, earlier: vec![], verbose: false };
                         let fr = fresh_process(&fs_now, &entry, &run.project.settings, &v);
                         cx.log_triple(&fr.first);
                         cx.out.max_call_cpu_ms = cx.out.max_call_cpu_ms.max(fr.max_call_cpu_ms);
@@ -764,6 +764,12 @@ fn execute_c10(run: &Run, opts: &ExecOpts) -> Outcome {
             }
         }
         let differing: Vec<usize> = (1..results.len()).filter(|i| results[*i].first != results[0].first).collect();
+        // the outputs fall into exactly the two groups "logger that takes everything" / "no logger"
+        let same: Vec<usize> = (1..results.len()).filter(|i| results[*i].first == results[0].first).collect();
+        if differing.iter().all(|i| run.variants[*i].verbose != run.variants[0].verbose) && same.iter().all(|i| run.variants[*i].verbose == run.variants[0].verbose) {
+            dim = "log-level";
+            pair = (0, differing[0]);
+        }
         if differing.iter().all(|i| !run.variants[*i].earlier.is_empty()) && run.variants[0].earlier.is_empty() {
             dim = "after-earlier-revisions";
             pair = (0, differing[0]);
